@@ -25,7 +25,11 @@ def parse_hex_string(buffer):
         except StopIteration:
             raise ValueError("Invalid hex string: uneven amount of digits.")
 
-        # parse
+        # parse (int() alone would also accept a sign, e.g. b"+f" or b"-1")
+        if not all(c in b"0123456789abcdefABCDEF" for c in high_nibble + low_nibble):
+            raise ValueError(
+                f"Invalid hex string: {high_nibble + low_nibble} is not a pair of hex digits."
+            )
         yield int(high_nibble + low_nibble, 16)
 
         high_nibble = b""
